@@ -608,8 +608,19 @@ func genC17(r *simrt.Rand, tier string, idx uint64) *Plan {
 		}
 		p.Targets[i].Lat = lat
 	}
+	if idx%4 == 3 && live >= 3 {
+		// one live target starts refusing in the middle of the run: the call that finds out resets its
+		// estimate to the maximum at once, so that it is not picked as minimal while the detector has
+		// not yet taken it out
+		down := 1600 + r.Intn(2500)
+		p.Targets[r.Intn(live)].Up = [][2]int{{0, 1}, {down, 0}}
+		p.Params["down_ms"] = down
+	}
 	cp := ClientPlan{}
 	n := 10 + r.Intn(50)
+	if p.Params["down_ms"] > 0 {
+		n += 30
+	}
 	for i := 0; i < n; i++ {
 		form := []string{"call", "ctx", "ping", "stream"}[r.Intn(4)]
 		if p.Params["sched"] != 2 && r.Chance(1, 3) {
@@ -651,9 +662,19 @@ func checkC17(w *World, run *simrt.Run) {
 			return
 		}
 	}
+	// with a target that starts refusing, the rotation oracles apply to the calls before that moment
+	stable := len(routes)
+	if d := w.P.Params["down_ms"]; d > 0 {
+		for i, rr := range routes {
+			if rr.ArriveT >= time.Duration(d)*time.Millisecond {
+				stable = i
+				break
+			}
+		}
+	}
 	switch w.P.Params["sched"] {
 	case 0: // round robin: any n consecutive calls hit n distinct targets
-		for i := 0; i+nt <= len(routes); i++ {
+		for i := 0; i+nt <= stable; i++ {
 			seen := map[string]bool{}
 			for _, rr := range routes[i : i+nt] {
 				seen[rr.Addr] = true
@@ -689,7 +710,7 @@ func checkC17(w *World, run *simrt.Run) {
 			if lastProbe < 0 || rr.ArriveT-lastProbe > tick {
 				lastProbe = rr.ArriveT
 				probes = append(probes, rr.Addr)
-				if n := len(probes); n >= nt {
+				if n := len(probes); n >= nt && k < stable {
 					seen := map[string]bool{}
 					for _, a := range probes[n-nt:] {
 						seen[a] = true
@@ -724,6 +745,11 @@ func checkC17(w *World, run *simrt.Run) {
 			if rr.Form == "go" || rr.Form == "rt" {
 				continue
 			}
+			if rr.ErrKind == "dial" {
+				est[ti] = maxLat // unreachable: reset to the maximum
+				w.Probe("least-time-target-found-unreachable")
+				continue
+			}
 			if est[ti] >= maxLat {
 				est[ti] = d
 			} else {
@@ -743,7 +769,7 @@ func genC18(r *simrt.Rand, tier string, idx uint64) *Plan {
 	dt := []int{50, 200, 1000, 5000}[r.Intn(4)]
 	p.Params["dialtimeout_ms"] = dt
 	p.Lists = [][]int{allTargets(nt)}
-	mode := idx % 6
+	mode := idx % 7
 	p.Params["mode"] = int(mode)
 	switch mode {
 	case 4: // swap: one target starts refusing while another, so far dead, recovers at about the same time
@@ -837,6 +863,33 @@ func genC18(r *simrt.Rand, tier string, idx uint64) *Plan {
 			// routing paused although a target may be live: callers go straight to the waiter table
 			p.Targets[0].Up = [][2]int{{0, 1}}
 			p.Clients = append(p.Clients, ClientPlan{Ops: []Op{{Kind: "fallback", N: (dt + 1000) * 1000}}})
+		}
+	case 6: // every target starts refusing at about the same time (refusals may be slow), later one recovers
+		for len(p.Targets) < 2 {
+			p.Targets = append(p.Targets, TargetPlan{Up: [][2]int{{0, 1}}, Lat: [][2]int{{0, 0}}})
+		}
+		nt = len(p.Targets)
+		p.Lists = [][]int{allTargets(nt)}
+		down := 600 + r.Intn(1500)
+		back := down + 1500 + r.Intn(2500)
+		for i := range p.Targets {
+			p.Targets[i].Up = [][2]int{{0, 1}, {down + r.Intn(150), 0}}
+		}
+		x := r.Intn(nt)
+		p.Targets[x].Up = append(p.Targets[x].Up, [2]int{back, 1})
+		p.Params["back_ms"] = back
+		p.Params["refuse_us"] = []int{0, 0, 20000, 60000, 140000}[r.Intn(5)]
+		p.Params["warmup_ms"] = 300
+		for c := 0; c < 2+r.Intn(3); c++ {
+			cp := ClientPlan{}
+			t := 0
+			for t < back+2500 {
+				cp.Ops = append(cp.Ops, Op{Kind: []string{"call", "ctx", "ping", "stream"}[r.Intn(4)]})
+				gap := 10 + r.Intn(120)
+				cp.Ops = append(cp.Ops, Op{Kind: "sleep", N: gap * 1000})
+				t += gap
+			}
+			p.Clients = append(p.Clients, cp)
 		}
 	case 5: // a DialTimeout expiring at the instant of a recovery, then a second episode without any live target
 		if dt == 50 {
@@ -973,6 +1026,21 @@ func checkC18(w *World, run *simrt.Run) {
 					w.Probe("call-after-close-failed-at-once")
 				}
 			}
+		}
+	case 6:
+		// one target is live again from back_ms on (the others stay away): once the detection bound
+		// (plus the time a refused probe takes) has passed, every call succeeds again
+		back := time.Duration(p.Params["back_ms"]) * time.Millisecond
+		slack := bound + time.Duration(p.Params["refuse_us"])*time.Microsecond
+		for _, r := range cs.results {
+			if !r.Returned || r.StartT <= back+slack {
+				continue
+			}
+			if r.Err != "" {
+				w.Violate("C18.recovery", "call-fails-although-target-recovered:"+r.Form, fmt.Sprintf("caller %d %s started %v, a target is live again since %v, got %q after %v", r.Caller, r.Form, r.StartT, back, r.Err, r.EndT-r.StartT))
+				break
+			}
+			w.Probe("call-succeeds-after-recovery")
 		}
 	case 5:
 		// second episode: the target list was installed anew after the last target had gone for good;
